@@ -10,7 +10,6 @@ import (
 	. "verif/c01/core"
 
 	"github.com/csgura/fp"
-	"github.com/csgura/fp/iterator"
 	"github.com/csgura/fp/try"
 )
 
